@@ -332,6 +332,12 @@ def r8(ctx):
         ctx.require_guards(body, b.idx, [("broadcast is None", g_is(lambda x: mentions_field(x, "broadcast"), "None"))], "assemble:non-broadcast-append", "append in the state machine")
 
 
+def r9(ctx):
+    """'from a non-reserved source': the address classifier AnyAddress::from is part of this property's acceptance test; its
+    table is rule C06.R5 (shared code)."""
+    import c06
+    c06.r5(ctx)
+
 RULES = [
     ("C07.R1", "T2+cut", "FrameInfo/Reply only after direction, source and destination validation", r1),
     ("C07.R2", "T2", "no link reply for broadcast; broadcast accepts user data only", r2),
@@ -341,4 +347,5 @@ RULES = [
     ("C07.R6", "T2-region", "Broadcast arms transmit nothing", r6),
     ("C07.R7", "T2", "error / echo / confirm responses only on non-broadcast edges", r7),
     ("C07.R8", "T2", "assembler accepts a broadcast only as a single FIR&FIN segment", r8),
+    ("C07.R9", "T4", "link address classes (reserved / broadcast / self) equal the standard on both roles (shared with C06.R5)", r9),
 ]
